@@ -92,4 +92,10 @@ theorem C16_cli_top_general (n : String) (ns : List String) (hne : n ≠ "")
 example : ("gtsam" : String) ≠ "" ∧ (∀ y ∈ ["gtsam", "inner"], noColon y = true) ∧
     parseTop (joinWith "::" ["gtsam", "inner"]) = ["", "gtsam", "inner"] := by decide
 
+/-- normalisation is idempotent: handing the normalised list, re-joined, to the option again changes nothing -/
+theorem C16_cli_top_idempotent (n : String) (ns : List String) (hne : n ≠ "")
+    (h : ∀ y ∈ n :: ns, noColon y = true) :
+    parseTop (joinWith "::" (parseTop (joinWith "::" (n :: ns)))) = parseTop (joinWith "::" (n :: ns)) := by
+  rw [(C16_cli_top_general n ns hne h).1, (C16_cli_top_general n ns hne h).2]
+
 end WrapModel.Props.C16
